@@ -14,7 +14,7 @@ PROFILES_FOR = {
     "C09": ["end", "wait", "mix"],
     "C11": ["contend", "buf", "mix", "rec"],
     "C12": ["contend", "queue", "mix", "rec"],
-    "C13": ["cond", "mix"],
+    "C13": ["condmany", "cond", "mix"],
     "C14": ["rec", "longrec"],
 }
 
